@@ -150,6 +150,11 @@ def run(ctx: Ctx) -> None:
     mod_names = ["MLP", "Res", "SeqRoot", "Attn", "UnitLayers"] if quick else list(builders)
     model_reqs, model_obs = [], []
     try:
+        # other formats have been simulated earlier in the same process (the stochastic FP8 pair shares its exponent / mantissa
+        # widths with the nearest-rounding E5M2 format used below): what a chain computes depends on its own formats only
+        with ctx.guard("C17:earlier-formats", {"history": "simulate_fp8 on an MLP, one forward/backward call"}):
+            torch.manual_seed(0)
+            fwd_bwd(simulate_fp8(MLP()), torch.randn(4, 8), 7)
         for mname in mod_names:
             build, xshape = builders[mname]
             for fname in (({"SeqRoot": ["e5m2rn"], "Attn": ["lossless"], "UnitLayers": ["lossless"]}.get(mname, ["lossless", "e5m2rn"]))
@@ -230,6 +235,27 @@ def run(ctx: Ctx) -> None:
                                 continue
                             if any(not same(outs[0], o) for o in outs[1:]):
                                 ctx.violation("C17:repeat", "repeated calls of the transformed module give different results", key)
+                            if chain and chain[-1] == "track_scales" and mname in ("MLP", "Res") and not call_mid:
+                                # plain data inputs (fresh tensors that do not require grad), as in the documented usage, from the
+                                # very first call of a freshly built chain: every call must treat them alike (track_scales makes the
+                                # inputs require grad in order to record their gradients)
+                                got_ = []
+                                with ctx.guard("C17:call", {**key, "plain_inputs": True}):
+                                    torch.manual_seed(1234)
+                                    cur2 = build()
+                                    for t in chain:
+                                        cur2 = (unit_scale(cur2) if t == "unit_scale" else formats[fname](cur2) if t == "simulate"
+                                                else track_scales(cur2))
+                                    for ci in range(3):
+                                        for p_ in cur2.parameters():
+                                            p_.grad = None
+                                        xi_ = x.clone()
+                                        torch.manual_seed(7)
+                                        cur2(xi_).sum().backward()
+                                        got_.append(None if xi_.grad is None else xi_.grad.detach().clone())
+                                if got_ and any((g_ is None) != (got_[0] is None) or (g_ is not None and not torch.equal(g_, got_[0])) for g_ in got_):
+                                    ctx.violation("C17:repeat", "repeated calls with fresh plain inputs are not treated alike (input gradient "
+                                                  "recorded on some calls only)", key, {"input_grad_present": [g_ is not None for g_ in got_]})
                             # every earlier transform applied exactly once, on the first call only
                             if chain:
                                 first = logs_per_call[0]
